@@ -596,9 +596,10 @@ class Real:
             task = FunctionTask(name, action, {self.ref(t) for t in targets}, depset)
             self.m.register(task)
             self.named[name] = task
-            # bring the new task up to date through the API (registration does not run it)
-            d0 = deps[0]
-            self.assign(d0, E.get_loc(d0, self.roots))
+            if not op.get("norun"):
+                # bring the new task up to date through the API (registration does not run it)
+                d0 = deps[0]
+                self.assign(d0, E.get_loc(d0, self.roots))
         elif k == "regknob":
             task = LinearKnob(op["name"], self.ref(tuple_loc(op["source"])), list(op["weights"]),
                               [self.ref(tuple_loc(t)) for t in op["targets"]])
